@@ -442,6 +442,160 @@ pub fn run(ctx: &Ctx) {
             acc.sample(seed, idx, || json!({"document": lossy(&doc.bytes)}));
         },
     );
+    if full {
+        stretch_layer(ctx);
+    }
+}
+
+/// Size thresholds: token lists with repeated parts. Returns the tokens and the start tokens to skip from.
+const STRETCH_SHAPES: [&str; 6] = [
+    "<a>^n t^m </a>^n (same-name nesting)",
+    "<a> (<b> t </b>)^n t^m </a> (many children)",
+    "<a> (<!--</a>-->)^n t^m (<![CDATA[</a>]]>)^n </a> (look-alike end tags)",
+    "<a> (<a/>)^n t^m </a> (same-name empty elements)",
+    "<a> t^m _^n </a_> (blanks before the end tag)",
+    "<b> (<a>)^n t^m (</a>)^n </b> (nesting inside another name)",
+];
+
+fn stretch_doc(shape: usize, n: usize, m: usize) -> (Vec<u8>, Vec<usize>) {
+    let mut t: Vec<u8> = Vec::new();
+    let rep = |t: &mut Vec<u8>, toks: &[u8], k: usize| {
+        for _ in 0..k {
+            t.extend_from_slice(toks);
+        }
+    };
+    let mut starts = vec![0usize];
+    match shape {
+        0 => {
+            rep(&mut t, &[0], n.max(1));
+            rep(&mut t, &[7], m);
+            rep(&mut t, &[1], n.max(1));
+            starts.extend([n.max(1) - 1, n.max(1) / 2]);
+        }
+        1 => {
+            t.push(0);
+            rep(&mut t, &[4, 7, 5], n);
+            rep(&mut t, &[7], m);
+            t.push(1);
+            if n > 0 {
+                starts.extend([1, 1 + 3 * (n - 1)]);
+            }
+        }
+        2 => {
+            t.push(0);
+            rep(&mut t, &[9], n);
+            rep(&mut t, &[7], m);
+            rep(&mut t, &[10], n);
+            t.push(1);
+        }
+        3 => {
+            t.push(0);
+            rep(&mut t, &[3], n);
+            rep(&mut t, &[7], m);
+            t.push(1);
+            if n > 0 {
+                starts.extend([1, n]);
+            }
+        }
+        4 => {
+            t.push(0);
+            rep(&mut t, &[7], m);
+            rep(&mut t, &[8], n);
+            t.push(2);
+        }
+        _ => {
+            t.push(4);
+            rep(&mut t, &[0], n);
+            rep(&mut t, &[7], m);
+            rep(&mut t, &[1], n);
+            t.push(5);
+            if n > 0 {
+                starts.extend([1, n]);
+            }
+        }
+    }
+    starts.sort();
+    starts.dedup();
+    (t, starts)
+}
+
+fn expect_for(doc: &Doc, i: usize, len: usize, cfg: u8) -> Option<Expect> {
+    match tk(doc.toks[i] as usize) {
+        TK::Start(_) => Some(match doc.matching_end(i, len) {
+            Some(j) => Expect { span: Some((doc.off[i + 1] as u64, doc.off[j] as u64)), resume: doc.off[j + 1] as u64, expanded_empty: false },
+            None => Expect { span: None, resume: 0, expanded_empty: false },
+        }),
+        TK::Empty(_) if cfg & EXPAND_EMPTY != 0 => {
+            let p = doc.off[i + 1] as u64;
+            Some(Expect { span: Some((p, p)), resume: p, expanded_empty: true })
+        }
+        _ => None,
+    }
+}
+
+fn stretch_layer(ctx: &Ctx) {
+    let t = ctx.tier;
+    let ns: Vec<u32> = crate::inputs::size_list(t.pick(16, 70), t.pick(16, 17));
+    let ms: [usize; 3] = [1, 0, 300];
+    let cfgs_small: Vec<u8> = vec![CHECK_END_NAMES | TRIM_NAMES, CHECK_END_NAMES | TRIM_NAMES | TRIM_START | TRIM_END, CHECK_END_NAMES | TRIM_NAMES | EXPAND_EMPTY, TRIM_NAMES | TRIM_START | EXPAND_EMPTY, 127 & !ALLOW_UNMATCHED & !CHECK_COMMENTS];
+    let (nn, nsh) = (ns.len() as u64, STRETCH_SHAPES.len() as u64);
+    ctx.layer(
+        "stretch",
+        1,
+        nn * nsh * 3,
+        json!({"shapes": STRETCH_SHAPES, "n": format!("0..=dense and around the powers of two up to 2^16/2^17 ({} sizes)", nn), "m": ms, "skipped_from": "the outermost start tag, the first and the last inner one", "operations": "read_to_end, read_text, read_to_end_into (whole, 7, 64; small documents also 1), async whole; truncation before the last token for the failure path"}),
+        |i0, acc| {
+            let mi = (i0 % 3) as usize;
+            let n = ns[((i0 / 3) % nn) as usize] as usize;
+            let shape = (i0 / 3 / nn) as usize;
+            let big = n > 1100;
+            if big && mi != 0 {
+                return;
+            }
+            let (toks, starts) = stretch_doc(shape, n, ms[mi]);
+            let doc = Doc::new(&toks);
+            let full_len = doc.bytes.len();
+            let cfgs: &[u8] = if big { &cfgs_small[..3] } else { &cfgs_small[..] };
+            for &cfg in cfgs {
+                // the complete document, and the document without its last token (failure path)
+                for len in [full_len, doc.off[toks.len() - 1]] {
+                    if big && len != full_len && cfg != cfgs[0] {
+                        continue;
+                    }
+                    let input = &doc.bytes[..len];
+                    let mut uninterrupted = Vec::new();
+                    run_slice(input, cfg, 0, &mut uninterrupted);
+                    for &i in &starts {
+                        if doc.off[i + 1] > len {
+                            continue;
+                        }
+                        let Some(exp) = expect_for(&doc, i, len, cfg) else { continue };
+                        let mut ops = vec![Op::ReadToEnd, Op::ReadText, Op::Into(0), Op::Into(7), Op::Into(64), Op::Async(0, None)];
+                        if !big {
+                            ops.push(Op::Into(1));
+                            ops.push(Op::Async(1, None));
+                        }
+                        for op in ops {
+                            acc.evaluations += 1;
+                            acc.transitions += 1;
+                            match check(&doc, input, cfg, i, op, &exp, &uninterrupted) {
+                                Ok(true) => {
+                                    acc.traces += 1;
+                                    acc.nt_count += 1;
+                                }
+                                Ok(false) => acc.count("start_not_reached", 1),
+                                Err(what) => acc.violation(
+                                    (1, i0),
+                                    format!("document {:?} ({} with n={} m={}) cfg [{}], start tag #{}, {:?}: {}", lossy_head(input), STRETCH_SHAPES[shape], n, ms[mi], cfg_show(cfg), i, op, lossy_head(what.as_bytes())),
+                                    json!({"stretch": [shape, n, ms[mi]], "len": len, "cfg": cfg, "start_token": i, "op": format!("{:?}", op)}),
+                                ),
+                            }
+                        }
+                    }
+                }
+            }
+        },
+    );
 }
 
 fn parse_op(s: &str) -> Op {
@@ -460,7 +614,10 @@ fn parse_op(s: &str) -> Op {
 }
 
 pub fn replay(case: &Value) -> Result<(), String> {
-    let toks: Vec<u8> = case["tokens"].as_array().ok_or("no tokens")?.iter().map(|v| v.as_u64().unwrap() as u8).collect();
+    let toks: Vec<u8> = match case.get("stretch").and_then(|s| s.as_array()) {
+        Some(a) => stretch_doc(a[0].as_u64().unwrap() as usize, a[1].as_u64().unwrap() as usize, a[2].as_u64().unwrap() as usize).0,
+        None => case["tokens"].as_array().ok_or("no tokens")?.iter().map(|v| v.as_u64().unwrap() as u8).collect(),
+    };
     let doc = Doc::new(&toks);
     let len = case["len"].as_u64().unwrap() as usize;
     let cfg = case["cfg"].as_u64().unwrap() as u8;
@@ -469,10 +626,12 @@ pub fn replay(case: &Value) -> Result<(), String> {
     let input = &doc.bytes[..len];
     let mut uninterrupted = Vec::new();
     run_slice(input, cfg, 0, &mut uninterrupted);
-    println!("document {:?} cfg [{}] start token #{} op {:?}", lossy(input), cfg_show(cfg), i, op);
-    println!("uninterrupted run:");
-    for o in show_trace(&uninterrupted) {
-        println!("  {}", o.as_str().unwrap());
+    println!("document {:?} cfg [{}] start token #{} op {:?}", lossy_head(input), cfg_show(cfg), i, op);
+    if input.len() <= 400 {
+        println!("uninterrupted run:");
+        for o in show_trace(&uninterrupted) {
+            println!("  {}", o.as_str().unwrap());
+        }
     }
     let exp = match tk(toks[i] as usize) {
         TK::Start(_) => match doc.matching_end(i, len) {
